@@ -217,6 +217,18 @@ func TestC12(t *testing.T) {
 		st.Eval()
 		f, nt, cls := checkC12(c)
 		if f != nil {
+			words := strings.Fields(string(c.Input))
+			for changed := true; changed && len(words) > 1; {
+				changed = false
+				for i := range words {
+					cand := append(append([]string(nil), words[:i]...), words[i+1:]...)
+					cc := mkIn(strings.Join(cand, " "), c.DF, 0)
+					if ff, _, _ := checkC12(cc); ff != nil && ff.Sub == f.Sub {
+						words, c, f, changed = cand, cc, ff, true
+						break
+					}
+				}
+			}
 			st.Violate(stream, c, f)
 			return false
 		}
